@@ -39,19 +39,27 @@ def _rank(draw, mn, hi=3):
 
 @st.composite
 def cp_case(draw, orders=(2, 3, 4), kinds=xi.KINDS_ALL, inits=("svd", "random", "user"), iters=ITERS,
-            tols=(1e-14, 1e-2), opts=None, max_rank=3, scales=None):
+            tols=(1e-14, 1e-2), opts=None, max_rank=3, scales=None, iweights=None):
     X = draw(xi.tensor_enc(orders=orders, kinds=kinds, scales=scales))
-    c = {"X": X, "rank": _rank(draw, min(X["s"]), max_rank), "init": draw(xi.init_spec(inits)),
+    c = {"X": X, "rank": _rank(draw, min(X["s"]), max_rank), "init": draw(xi.init_spec(inits, weights=iweights)),
          "n_iter": draw(st.sampled_from(list(iters))), "tol": draw(st.sampled_from(list(tols)))}
     if opts:
         c.update(opts(draw, c))
     return c
 
 
+def fixed_modes_of(draw, order):
+    """non-empty subset of the modes that may be fixed (never the last one)"""
+    return sorted(draw(st.sets(st.integers(0, order - 2), min_size=1, max_size=order - 1)))
+
+
 def parafac_opts(group):
     def f(draw, c):
         order = len(c["X"]["s"])
         o = {"cvg": draw(st.sampled_from(["abs_rec_error", "rec_error"])), "return_errors": draw(st.booleans())}
+        if group == "fixed_modes":
+            o["fixed_modes"] = fixed_modes_of(draw, order)
+            o["normalize"] = draw(st.booleans())
         if group in ("normalize", "normalize_o2"):
             o["normalize"] = True
         if group == "linesearch":
@@ -139,7 +147,12 @@ def parafac2_case(draw, group, iters=ITERS, tols=(1e-14, 1e-2), nn_choices=([0],
     rank = draw(st.integers(1, hi))
     if group == "exactfit":
         rank = min(hi, max(rank, X["r"]))
-    c = {"X": X, "rank": rank, "init": draw(xi.init_spec(("random", "svd"))),
+    init = draw(xi.init_spec(("random", "svd", "user"), weights=("none", "ones", "pos", "pos")))
+    if init["kind"] == "user":
+        init["form"] = draw(st.sampled_from(["pf2", "cp"]))      # Parafac2Tensor triple / CP pair (B split by QR)
+    else:
+        init.pop("w", None)
+    c = {"X": X, "rank": rank, "init": init,
          "n_iter": draw(st.sampled_from(list(iters))), "tol": draw(st.sampled_from(list(tols))),
          "n_iter_parafac": draw(st.sampled_from([1, 2, 5])), "normalize": draw(st.booleans()),
          "linesearch": group == "linesearch"}
@@ -364,7 +377,8 @@ def subchecks(tier):
     # --- parafac -----------------------------------------------------------
     P = xi.Parafac()
     groups = {"plain": dict(orders=(2, 3, 4)), "normalize": dict(orders=(3, 4)), "normalize_o2": dict(orders=(2,)),
-              "linesearch": dict(orders=(2, 3, 4), iters=[3, 7, 8, 9, 12, 12, 17, 24], scales=xi.SCALES), "sparsity": dict(orders=(2, 3, 4))}
+              "linesearch": dict(orders=(2, 3, 4), iters=[3, 7, 8, 9, 12, 12, 17, 24], scales=xi.SCALES), "sparsity": dict(orders=(2, 3, 4)),
+              "fixed_modes": dict(orders=(2, 3, 4), inits=("user",), iweights=("none", "ones", "pos", "mixed"))}
     for g, kw in groups.items():
         strat = cp_case(opts=parafac_opts(g), **kw)
         add(f"parafac/{g}/callback", strat, o_callback(P), quick=80, thorough=400)
